@@ -26,3 +26,19 @@ PROPS = {
              stateful=True, history_ops=("register",),
              exhaustive_parts=["all 256 values of every 1-byte MAC payload", "registry: all 2x256 keys"]),
 }
+
+# texts for MANIFEST.json (lib/manifest.py)
+MANIFEST_TEXT = {
+    "C06": dict(
+        text="Lean theorems C06_dec_spec / C06_enc_spec: for all 30 MAC payload types, every byte string and every in-range value, the model codec equals a table-driven "
+             "bit-layout specification (RFU bits ignored on receive, zero on transmit); C06_registry: the registry regenerated from /repo equals the specification's (CID, direction) table. "
+             "The model is tied to the Go code by differential runs (exhaustive for 1-byte payloads); every Go result is also judged directly against the specification.",
+        note="Trusted: Lean kernel; the hand-transcribed layout tables (LW/Spec/Mac.lean); the harness/driver comparison. Frame headers / join payloads / CFList are compared against the spec at run time and proved in C01/C08 as round trips; their layout theorems are work in progress.",
+        technique="Lean 4 proof (model = layout spec) + differential correspondence with the Go code"),
+    "C07": dict(
+        text="Lean theorems: C07_lossless (encode ok => decode gives the same value, all 30 payload types over their FULL Go field domains), C07_accepts (every in-spec value is accepted), "
+             "C07_stream (any well-framed command sequence of any length decodes to itself under ANY registry, hence every history of proprietary registrations), "
+             "C07_registry_sizes / C07_registry_is_spec over the registry regenerated from /repo, C07_register_dir/_framed/_range. Tied to the Go code by differential runs incl. registration histories.",
+        note="Trusted: Lean kernel; Spec ranges (LW/Spec/Mac.lean); Go map modelled as association list; RWMutex not modelled. Six genuine defects were found by this check and repaired in /repo (known_findings.json, status fixed).",
+        technique="Lean 4 proof (round trip + stream induction over arbitrary registries) + differential correspondence"),
+}
